@@ -81,10 +81,17 @@ def verify(kind, pk, raw_sig, message):
 
 
 # ---------------------------------------------------------------- real groups
-def build_group(client, kinds, key):
+def build_group(client, kinds, key, size=0):
+    """size > 0: the kinds that carry free-form data carry about that many bytes of it (an operation may be anything up to the protocol's 32 KiB)"""
     from ..opclient import DEST, SCRIPT, add_content
     g = client
     for j, kind in enumerate(kinds):
+        if size and kind == 'register_global_constant':
+            g = g.register_global_constant({'bytes': ('%02x' % (j + 1)) * size})
+            continue
+        if size and kind == 'failing_noop':
+            g = g.failing_noop('m' * size)
+            continue
         if kind in ('transaction', 'reveal', 'delegation', 'origination'):
             g = add_content(g, kind, j)
         elif kind == 'register_global_constant':
@@ -102,7 +109,7 @@ def build_group(client, kinds, key):
     return g
 
 
-def replay_case(ctx, kinds, key_kind, chain_ix, variant=0):
+def replay_case(ctx, kinds, key_kind, chain_ix, variant=0, size=0):
     """Real fill().sign().hash() against the independent interpretation."""
     from ..fakenode import b58check, b58decode
     from ..opclient import make_client, make_key, fresh_key
@@ -117,8 +124,8 @@ def replay_case(ctx, kinds, key_kind, chain_ix, variant=0):
     payload = CHAIN_PAYLOADS[chain_ix - 1]
     chain_id = b58check(bytes([87, 82, 0]), payload)
     client, node = make_client(key, chain_ctr=5 + variant, chain_id=chain_id)      # the variant changes the counters, hence the signed bytes
-    case = {'kinds': list(kinds), 'key': key_kind, 'chain': chain_ix, 'variant': variant}
-    filled = build_group(client, kinds, key).fill()
+    case = {'kinds': list(kinds), 'key': key_kind, 'chain': chain_ix, 'variant': variant, 'size': size}
+    filled = build_group(client, kinds, key, size).fill()
     if node.unknown:
         raise RuntimeError('FakeNode does not know %s' % node.unknown[:3])
     forged = bytes.fromhex(filled.forge())
@@ -183,6 +190,22 @@ def replay_case(ctx, kinds, key_kind, chain_ix, variant=0):
     if got_hash != want_hash:
         ok = False
         ctx.mismatch('C23:hash', 'hash() = %s, Blake2b-256(forged || raw signature) in base58 "o" = %s (%s, %s)' % (got_hash, want_hash, list(kinds), key_kind), case)
+    # the hash and the binary payload are functions of the signed group alone: whoever holds it (a client with a key of another kind, e.g. an indexer
+    # or a co-signer with a tz4 / tz1 key) computes the same
+    try:
+        from pytezos.operation.group import OperationGroup
+        okind = 'tz1' if key_kind == 'tz4' else 'tz4'
+        oclient, _ = make_client(make_key(okind), chain_ctr=5, chain_id=chain_id)
+        held = OperationGroup(context=oclient.context, contents=[dict(c) for c in signed.contents], protocol=signed.protocol, chain_id=signed.chain_id, branch=signed.branch,
+                              signature=signed.signature)
+        hgot = (held.hash(), held.binary_payload())
+        if hgot != (want_hash, forged + raw):
+            ok = False
+            ctx.mismatch('C23:held-by-other-key-kind:%s' % ('hash' if hgot[0] != want_hash else 'payload'), 'the signed group of a %s key held by a client with a %s key: hash() = %s (expected %s), payload %s' % (
+                key_kind, okind, hgot[0], want_hash, 'equal' if hgot[1] == forged + raw else 'differs'), case)
+    except Exception as e:   # noqa
+        ok = False
+        ctx.mismatch('C23:held-by-other-key-kind:raises', 'hash() / binary_payload() of the signed group of a %s key held by a client with another key kind raised %s: %s' % (key_kind, type(e).__name__, str(e)[:200]), case)
     # a group derived from one that already carries a hash (as returned by send / send_async) is a new group: signed and hashed by its own bytes
     if not consensus and kinds[0] in MANAGER:
         from pytezos.operation.group import OperationGroup
@@ -248,6 +271,12 @@ def run(ctx):
             if st['pc'] != 'done':
                 continue
             ok = replay_case(ctx, st['kinds'], st['keyKind'], st['chain'])
+            # the same scenario with 9 kB and 20 kB of data in the kinds that carry free-form data (up to 32 KiB an operation is an operation)
+            if {'register_global_constant', 'failing_noop'} & set(st['kinds']) and (st['chain'] == 1 or not ctx.quick):
+                for size in (9000, 20000):
+                    ok = replay_case(ctx, st['kinds'], st['keyKind'], st['chain'], size=size) and ok
+                    ctx.replayed += 1
+                    ctx.count((st['kinds'], st['keyKind'], st['chain'], size), nontrivial=True)
             ctx.replayed += 1
             ctx.count((st['kinds'], st['keyKind'], st['chain']), nontrivial=True)
             if ok and len(st['kinds']) == 1:
@@ -264,7 +293,7 @@ def run(ctx):
 
 def replay(ctx, rep):
     c = rep['case']
-    replay_case(ctx, tuple(c['kinds']), c['key'], c['chain'], variant=c.get('variant', 0))
+    replay_case(ctx, tuple(c['kinds']), c['key'], c['chain'], variant=c.get('variant', 0), size=c.get('size', 0))
     return report_replay(ctx, rep)
 
 
